@@ -64,6 +64,9 @@ outside the claim (see §6).
 ''' % (n, first, n, det, n, '\n'.join(rows))
 p='/verif/DESIGN.md'; s=open(p).read()
 i=s.index('## 9. Which checks catch which changes')
-s=s[:i]+sec
+rest=''
+j=s.find('## 10. ')
+if j>0: rest='\n'+s[j:]
+s=s[:i]+sec+rest
 open(p,'w').write(s)
 print(n,first,det)
